@@ -293,6 +293,13 @@ def run_case(case):
     if pre:
         ptree = build.build_tree(dendropy, [None, None, None, [[None, i, None, []] for i in pre]], ns, taxa, rooted=rooted)
         call_encode(ptree, {"su": True, "cb": True}, evs, members(ns))
+    if case.get("readd") is not None:
+        # a member whose bit has been handed out leaves the namespace and the SAME Taxon object is registered again:
+        # it is accessioned anew, and every later encoding must use its new bit (seeded change C01-v1: stale cache)
+        t = taxa[case["readd"] % len(taxa)]
+        ns.taxon_bitmask(t)
+        ns.remove_taxon(t)
+        ns.add_taxon(t)
     if case.get("order") == "reverse":
         ns.reverse()
     elif case.get("order") == "sort":
@@ -446,7 +453,7 @@ def model_cases(ctx, states, sample=None):
                     "allperms_upto": 3, "shuffles": 1, "fixed_orders": 1 + k % 3, "reencode_rebuilt": k % 7 == 0,
                     "log_mate": False, "mate": mate["nested"] if mate else None,
                     "edit_before_default": [None, None, "swap_taxa", "move_leaf"][(k // 5) % 4],
-                    "pre_taxa": pre_taxa(len(r["M"]), k, rng),
+                    "pre_taxa": pre_taxa(len(r["M"]), k, rng), "readd": k if k % 4 == 1 else None,
                     "route": ROUTES[(k // 3) % len(ROUTES)] if k % 3 == 0 else None, "route_stale": (k // 3) % 2 == 0,
                     "mate_step": {"op": "encode", "su": COMBOS[(k // 2) % 4][0], "cb": COMBOS[(k // 2) % 4][1]}}
             cases.append(case)
@@ -491,7 +498,7 @@ def random_cases(ctx, n):
                       "steps": steps_for(rng.randrange(24), rng), "allperms_upto": 0, "shuffles": 2,
                       "reencode_rebuilt": k % 3 == 0, "mate": mate,
                       "edit_before_default": rng.choice([None, None, "swap_taxa", "move_leaf"]),
-                      "pre_taxa": pre_taxa(len(M), rng.randrange(4), rng),
+                      "pre_taxa": pre_taxa(len(M), rng.randrange(4), rng), "readd": k if k % 3 == 1 else None,
                       "route": ROUTES[k % len(ROUTES)], "route_stale": rng.random() < 0.5,
                       "mate_step": {"op": "encode", "su": rng.random() < 0.7, "cb": rng.random() < 0.7}})
     return cases
